@@ -58,6 +58,9 @@ Qed.
 Lemma lastn_snoc_small {A} n (l : list A) x : length l + 1 <= n -> lastn n (l ++ [x]) = l ++ [x].
 Proof. intros H. apply lastn_all. rewrite app_length. simpl. lia. Qed.
 
+Lemma lastz_lastn {A} (n : Z) (l : list A) : lastz n l = lastn (Z.to_nat n) l.
+Proof. unfold lastz, lastn, zlen. f_equal. lia. Qed.
+
 (* ------------------------------------------------------------------ membership / distinct *)
 
 Lemma memN_false x l : memN x l = false <-> ~ In x l.
@@ -118,22 +121,29 @@ Lemma spec_window_snoc size P x :
   spec_window size (P ++ [x]) = win_step size (spec_window size P) x.
 Proof. unfold spec_window. now rewrite fold_left_app. Qed.
 
+Lemma win_step_unfold size w x :
+  win_step size w x = if memN x w then w else lastn (Z.to_nat size) (w ++ [x]).
+Proof. unfold win_step. now rewrite lastz_lastn. Qed.
+
+Lemma burst_of_unfold b w : burst_of b w = lastn (Z.to_nat (Z.min b (zlen w))) w.
+Proof. unfold burst_of. apply lastz_lastn. Qed.
+
 Lemma win_step_NoDup size w x : NoDup w -> NoDup (win_step size w x).
 Proof.
-  intros H. unfold win_step. destruct (memN x w) eqn:E; auto.
+  intros H. rewrite win_step_unfold. destruct (memN x w) eqn:E; auto.
   apply lastn_NoDup. apply NoDup_snoc; auto. now apply memN_false.
 Qed.
 
 Lemma win_step_incl size w x y : In y (win_step size w x) -> In y w \/ y = x.
 Proof.
-  unfold win_step. destruct (memN x w); auto.
+  rewrite win_step_unfold. destruct (memN x w); auto.
   intros H. apply lastn_incl in H. apply in_app_or in H. destruct H as [H|[H|[]]]; auto.
 Qed.
 
 Lemma win_step_length size w x :
   length w <= Z.to_nat size -> length (win_step size w x) <= Z.to_nat size.
 Proof.
-  intros H. unfold win_step. destruct (memN x w); auto. rewrite lastn_length. lia.
+  intros H. rewrite win_step_unfold. destruct (memN x w); auto. rewrite lastn_length. lia.
 Qed.
 
 (* the invariant tying the window to all the pushes *)
@@ -153,7 +163,7 @@ Proof.
     + lia.
   - rewrite spec_window_snoc. set (w := spec_window size P) in *.
     destruct IH as [Hnd Hincl Hlen Hfull].
-    assert (Hstep : win_step size w x = if memN x w then w else lastn n (w ++ [x])) by reflexivity.
+    assert (Hstep : win_step size w x = if memN x w then w else lastn n (w ++ [x])) by apply win_step_unfold.
     destruct (memN x w) eqn:Ew.
     + (* re-push of a buffered id *)
       rewrite Hstep. assert (HxP : memN x P = true) by (apply memN_In, Hincl, memN_In; exact Ew).
@@ -182,12 +192,13 @@ Proof.
 Qed.
 
 Lemma spec_window_NoDup_pushes size P :
-  NoDup P -> spec_window size P = lastn (Z.to_nat size) P.
+  NoDup P -> spec_window size P = lastz size P.
 Proof.
+  rewrite lastz_lastn.
   induction P as [|x P IH] using rev_ind; intros Hnd.
   - reflexivity.
   - apply NoDup_snoc_inv in Hnd. destruct Hnd as [Hnd Hnin].
-    rewrite spec_window_snoc, IH by exact Hnd. unfold win_step.
+    rewrite spec_window_snoc, IH by exact Hnd. rewrite win_step_unfold.
     assert (E : memN x (lastn (Z.to_nat size) P) = false).
     { apply memN_false. intros Hin. apply Hnin. eapply lastn_incl; eauto. }
     rewrite E. apply lastn_app_lastn.
@@ -196,7 +207,7 @@ Qed.
 Lemma spec_window_newest size P x :
   (size > 0)%Z -> In x (spec_window size (P ++ [x])).
 Proof.
-  intros Hs. rewrite spec_window_snoc. unfold win_step.
+  intros Hs. rewrite spec_window_snoc, win_step_unfold.
   destruct (memN x (spec_window size P)) eqn:E.
   - now apply memN_In.
   - apply lastn_snoc_in. lia.
